@@ -65,7 +65,9 @@ func c09(tier string) {
 			c05docs = append(c05docs, t)
 		}
 	}
-	common := []string{"{}", "[]", c04Good, "{\"@graph\":", "", "not json at all", `{"@context": 5}`, `{"@id": 5}`}
+	// whatever the source path makes of an unusual text, the compiled path must make the same of it
+	common := []string{"{}", "[]", c04Good, "{\"@graph\":", "", "not json at all", `{"@context": 5}`, `{"@id": 5}`,
+		"\ufeff" + c04Good, "  \r\n\t" + c04Good + "\r\n", c04Good + " trailing junk", c04Good + c04Good, "\ufeff", "\x00" + c04Good}
 	for _, p := range c05Profiles() {
 		defs = append(defs, pdef{p.Text(), append(append([]string{}, c05docs...), common...)})
 	}
